@@ -58,16 +58,20 @@ Definition kind_of (z : Z) : option kind :=
   if z =? 0 then Some KTrigger else if z =? 1 then Some KBinary else if z =? 2 then Some KPulsed
   else if z =? 3 then Some KAbsolute else if z =? 4 then Some KIntensity else None.
 
-(* the harness's handler with fb = n sends n states (id, 1 + j mod 5) *)
-Fixpoint fb_sends (id : Z) (n : nat) (j : Z) : list titem :=
-  match n with O => [] | Datatypes.S n' => TFb id (1 + j mod 5) :: fb_sends id n' (j + 1) end.
-Definition mk_handler (id fb tag : Z) : handler := mkHandler tag (fb_sends id (Z.to_nat fb) 0).
+(* the harness's handler with fb = n sends n states (id, 1 + j mod 5), then makes its own Bind* calls *)
+Fixpoint fb_sends (id : Z) (n : nat) (j : Z) : list (Z * Z) :=
+  match n with O => [] | Datatypes.S n' => (id, 1 + j mod 5) :: fb_sends id n' (j + 1) end.
+Definition mk_handler (id fb tag : Z) (binds : list reg) : handler := mkHandler tag (fb_sends id (Z.to_nat fb) 0) binds.
 
-Definition dec_bind (s : sexp) : option reg :=
+(* (KIND ID FB TAG) or (KIND ID FB TAG (BIND...)): the handler's own registrations, nested at most twice *)
+Definition dec_bind_with (inner : sexp -> option reg) (s : sexp) : option reg :=
   match s with
-  | L [I k; I id; I fb; I tag] => let? kk := kind_of k in Some (kk, id, mk_handler id fb tag)
+  | L [I k; I id; I fb; I tag] => let? kk := kind_of k in Some (kk, id, mk_handler id fb tag [])
+  | L [I k; I id; I fb; I tag; L res] =>
+    let? kk := kind_of k in let? rs := dec_list inner res in Some (kk, id, mk_handler id fb tag rs)
   | _ => None
   end.
+Definition dec_bind : sexp -> option reg := dec_bind_with (dec_bind_with (dec_bind_with (fun _ => None))).
 
 Definition pause_of (p : Z) : option Z := if p <? 0 then None else Some p.
 
@@ -92,6 +96,8 @@ Definition dec_item (s : sexp) : option celem :=
     | [B bs] => if is "trunc" then Some (EItem (ITrunc bs) []) else None
     | [I k; I id; I fb; I tag] =>
       if is "bind" then let? r := dec_bind (L [I k; I id; I fb; I tag]) in Some (EBind r) else None
+    | [I k; I id; I fb; I tag; L res] =>
+      if is "bind" then let? r := dec_bind (L [I k; I id; I fb; I tag; L res]) in Some (EBind r) else None
     | _ => None
     end
   | _ => None
@@ -260,7 +266,7 @@ Definition jv_tag (j : jv) : string :=
   | JCalls => "c19-calls" | JAcks => "c19-acks" | JFeedback => "c19-feedback" | JState => "c19-state"
   end.
 
-Definition marker_reg : reg := (KTrigger, 9999, mk_handler 9999 1 0).
+Definition marker_reg : reg := (KTrigger, 9999, mk_handler 9999 1 0 []).
 
 Definition run_case (s : sexp) : sexp :=
   match s with
